@@ -11,7 +11,7 @@ import (
 )
 
 func init() {
-	register("C20", c20DivZero, c20Ops, c20NoPanic, c20Fixpoint, c20Sorted, c20Pure, c20CacheErr, c15CacheInfo)
+	register("C20", c20DivZero, c20InstanceMemo, c20Ops, c20NoPanic, c20Fixpoint, c20Sorted, c20Pure, c20CacheErr, c15CacheInfo)
 }
 
 const relTagexpr = "internal/tagexpr"
